@@ -141,6 +141,29 @@ def _run(case):
     return code, sel, real, err[-300:], want, werr, left
 
 
+def _run_again(case):
+    """the same invocation twice in one process on the same paths, the tree put back in between: the files processed the second
+    time are those of the first time (what the arguments designate does not depend on what an earlier invocation did)"""
+    tname, args, recurse, mode = case
+    with Scratch("pv-c19r-") as d:
+        sels, codes = [], []
+        mk(d, T[tname])
+        snap = {}
+        for root, _, fs in os.walk(d):
+            for f in fs:
+                q = os.path.join(root, f)
+                if os.path.isfile(q) and not os.path.islink(q):
+                    snap[q] = open(q, "rb").read()
+        for _ in range(2):
+            for q, b in snap.items():
+                open(q, "wb").write(b)
+            argv = [mode] + (["-r"] if recurse else []) + list(args)
+            code, out, err = impl.run_cli(argv, cwd=d)
+            sels.append(sorted(m.group(1) for m in re.finditer(r"^Fixed: (.*)$" if mode == "fix" else r"^(.*?):\d+:\d+: MD019", out, re.M)))
+            codes.append(code)
+    return sels, codes
+
+
 def all_files_on_disk(d):
     for root, _, fs in os.walk(d):
         for f in fs:
@@ -208,6 +231,12 @@ def run(ctx):
             coq_cases.append((f"({coq_tree(T[t])}, {cbool(recurse)}, {exts}, {clist((cstr(a) for a in args), 'str')})",
                               f"({clist((cstr(s) for s in sel), 'str')}, {cbool(code != 0 and not sel and ('did not match' in err or 'does not exist' in err or 'not a valid file' in err))})"))
             idx.append(i)
+    again = [(c[0], c[1], c[2], c[4]) for c in space if c[4] in ("fix", "scan") and len(c[1]) == 1][: (80 if ctx.tier == "quick" else 100000)]
+    for case, (sels, codes) in zip(again, impl.pmap(_run_again, again, chunksize=8)):
+        ctx.count(1, f"{case[3]}/twice-in-one-process")
+        if sels[0] != sels[1] or codes[0] != codes[1]:
+            ctx.violation("selection", {"tree": case[0], "args": list(case[1]), "recurse": case[2], "mode": case[3], "invocations": 2},
+                          f"the second of two identical invocations in one process handles {sels[1]} (exit {codes[1]}), the first handled {sels[0]} (exit {codes[0]})", group="selection-second-invocation")
     ctx.sample({"case": space[len(space) // 3], "selected": res[len(space) // 3][1], "exit": res[len(space) // 3][0]})
     if "Model/Discover.v" in ctx.build.ok_files:
         # errors on globbed paths are printed but not fatal: the model's error flag is the fatal one, recognised by "nothing listed"
@@ -249,7 +278,7 @@ def run(ctx):
     ]
     return ctx.finish(
         level="proof",
-        rule="5 fixed trees x argument lists (all singles, all ordered pairs, 150 fixed triples from a per-tree pool of 4-37 spellings/globs/missing paths) x recurse x alternate extensions for --list-files; singles + 120 pairs x recurse for scan and fix; API list_path on every single; quick = all singles + 2500 seed-selected others; non-trivial = more than one argument or a glob; distinct by (tree,args,flags,mode)",
+        rule="5 fixed trees x argument lists (all singles, all ordered pairs, 150 fixed triples from a per-tree pool of 4-37 spellings/globs/missing paths) x recurse x alternate extensions for --list-files; singles + 120 pairs x recurse for scan and fix; API list_path on every single; single-argument scan / fix invocations repeated in one process with the tree put back; quick = all singles + 2500 seed-selected others; non-trivial = more than one argument or a glob; distinct by (tree,args,flags,mode)",
         assumptions=["names are judged by location (realpath) for 'once each' and by spelling for the model correspondence"],
         extra_cov={"exhaustive": ctx.tier == "thorough"},
     )
